@@ -807,9 +807,9 @@ Qed.
 
 (* in both matchers what a '*' absorbs is separator-free by construction; as a
    consequence a pattern whose ops cannot match a separator (literals other
-   than '/', and '?') only matches names without separator, PROVIDED the rune
-   read by '?' has no '/' among its continuation bytes - which is how UTF-8
-   decoding works; proved here for one-byte runes (names below 0x80) *)
+   than '/', and '?') only matches names without separator: first for names
+   below 0x80 ([pm_no_sep_partial]), then for all names ([pm_no_sep], with
+   [decode_rune_consumed]: the continuation bytes of a rune are never '/') *)
 Definition ascii (s : str) : Prop := forall c, In c s -> (c < 128)%N.
 
 Lemma decode_ascii c s : (c < 128)%N -> decode_rune (c :: s) = (c, 1).
@@ -864,6 +864,59 @@ Proof.
   destruct (ops_match_nosep Has Hno Hm) as (u & -> & Hu).
   apply sepfree_app; [exact Hx|]. apply sepfree_app; [exact Hu|].
   apply IH; [apply (ascii_app_r _ _ Has)|exact Hn'].
+Qed.
+
+(* the bytes DecodeRune consumes after a first byte other than '/' are never '/'
+   (continuation bytes are >= 0x80): the statement above holds for every name *)
+Lemma inr_not_sep lo hi b : inr lo hi b = true -> (128 <= lo)%N -> sepL b = false.
+Proof.
+  unfold inr. intros H Hlo. apply andb_prop in H as [H _]. apply N.leb_le in H.
+  rewrite sepL_eq. apply N.eqb_neq. unfold SLASH. lia.
+Qed.
+
+Lemma decode_rune_consumed c0 s :
+  c0 <> SLASH -> sepfree (firstn (snd (decode_rune (c0 :: s))) (c0 :: s)).
+Proof.
+  intros Hc.
+  assert (H0 : sepL c0 = false) by (rewrite sepL_eq; apply N.eqb_neq; exact Hc).
+  unfold decode_rune.
+  repeat match goal with
+         | |- context [if ?b then _ else _] => destruct b eqn:?
+         | |- context [match ?l with [] => _ | _ :: _ => _ end] => destruct l
+         end; cbn [snd firstn];
+  repeat match goal with H : _ && _ = true |- _ => apply andb_prop in H; destruct H end;
+  intros x Hx; cbn [In] in Hx;
+  repeat match goal with H : _ \/ _ |- _ => destruct H end; subst; try contradiction; try exact H0;
+  try (eapply inr_not_sep; [eassumption|lia]).
+Qed.
+
+Lemma op_match_consumed o s t : op_nosep o -> op_match o s t -> exists u, s = u ++ t /\ sepfree u.
+Proof.
+  intros Hn H. destruct H as [c s|c0 s Hne|neg rs c0 s E]; cbn [op_nosep] in Hn.
+  - exists [c]. split; [reflexivity|]. intros y [<-|[]]. rewrite sepL_eq. apply N.eqb_neq. exact Hn.
+  - exists (firstn (snd (decode_rune (c0 :: s))) (c0 :: s)). split; [symmetry; apply firstn_skipn|].
+    apply decode_rune_consumed. exact Hne.
+  - contradiction.
+Qed.
+
+Lemma ops_match_consumed ops s t :
+  Forall op_nosep ops -> ops_match ops s t -> exists u, s = u ++ t /\ sepfree u.
+Proof.
+  intros Hn H. induction H as [s|o ops s t u Ho _ IH].
+  - exists []. split; [reflexivity|intros ? []].
+  - inversion Hn as [|? ? Hno Hn']; subst.
+    destruct (op_match_consumed Hno Ho) as (u1 & -> & H1). destruct (IH Hn') as (u2 & -> & H2).
+    exists (u1 ++ u2). split; [apply app_assoc|apply sepfree_app; assumption].
+Qed.
+
+(* a pattern without class and without literal '/' only matches names without separator *)
+Theorem pm_no_sep cks name :
+  pm cks name -> Forall (fun ck : pchunk => Forall op_nosep (snd ck)) cks -> sepfree name.
+Proof.
+  induction 1 as [|star ops rest x s t _ Hx Hm _ IH]; intros Hn; [intros ? []|].
+  inversion Hn as [|? ? Hno Hn']; subst. cbn [snd] in Hno.
+  destruct (ops_match_consumed Hno Hm) as (u & -> & Hu).
+  apply sepfree_app; [exact Hx|]. apply sepfree_app; [exact Hu|]. apply IH. exact Hn'.
 Qed.
 
 (* ---- the shape of what scanChunk returns ---------------------------------------------------- *)
